@@ -298,6 +298,7 @@ class Gen:
             if not free:
                 # ufl requires "true scalars" (no shape, no free indices) here
                 add("pow", "pow", 2)
+                add("ipow", "ipow", 2)
                 add("fn", "math", 2)
                 add("minmax", "cond")
                 add("sign", "sign")
@@ -441,6 +442,8 @@ class Gen:
             if k == "real":
                 return ["pow", self.positive(e((), free, d)), ["lit", self.pick([0.5, 1.5, 2.5, -1.5])]]
             return ["pow", self.positive(e((), free, d)), self.bounded(e((), (), min(d, 1)))]
+        if op == "ipow":
+            return ["pow", e((), free, d), ["lit", self.pick([0, 1, 2, 2, 3])]]
         if op == "fn":
             f = self.pick(MATH1)
             a = e((), free, d)
